@@ -14,6 +14,7 @@ in  (one JSON object per line), by "kind":
        the try_to_timestamp literal of engine e, and what the execution engine / Spark read them as
   {"case": n, "kind": "overlay", "engine": e, "form": "omitted"|"pyInt"|"column", "rows": [[src|null, rep|null, pos|null, len|null], ..]}
   {"case": n, "kind": "sequence", "engine": e, "rows": [[a, b], ..]}    -> F.sequence(a, b) without a step
+  {"case": n, "kind": "rint", "engine": e, "rows": [[h], ..]}           -> F.rint over the doubles h/2
   {"case": n, "kind": "regexp", "engine": e, "posGiven": b, "subjects": [s, ..]}   (U+0001 in a subject marks a match)
                                                                         -> U+0002 marks a replaced match, U+0001 a match left alone
   {"case": n, "kind": "name", "engine": e, "name": s, "quoted": b}      -> on engine e's default session: the identifier
@@ -164,6 +165,16 @@ def handle (line : String) : String :=
           ("model", toJson (rows.map (fun p => sqlframeSequence rule p.1 p.2))),
           ("spec", toJson (rows.map (fun p => sparkSequence p.1 p.2))),
           ("H_sequenceDescendingNoStep", toJson (rows.map (fun p => decide (rule = .direction ∨ rule = .native ∨ p.1 ≤ p.2))))]))
+    | "rint" =>
+      let e := c.engine.getD ""
+      let hs := (c.rows.getD []).map (fun r => (optInt (r.getD 0 none)).getD 0)
+      match rintRuleOf e with
+      | none => Json.compress (Json.mkObj (base ++ [("err", toJson s!"no rint rule for {e}")]))
+      | some rule =>
+        Json.compress (Json.mkObj (base ++ [
+          ("rule", toJson (match rule with | .roundEven => "roundEven" | .fromRound => "fromRound" | .native => "native")),
+          ("model", toJson (hs.map (sqlframeRint rule))), ("spec", toJson (hs.map sparkRint)),
+          ("H_rintHalfAwayEmulation", toJson (hs.map (fun h => decide (rule ≠ .fromRound ∨ h % 2 = 0))))]))
     | "regexp" =>
       let e := c.engine.getD ""
       let subs := (c.subjects.getD []).map (fun s => s.toList.map pieceOf)
